@@ -1103,4 +1103,263 @@ Proof.
       intros p Hp. unfold sF. cbn. rewrite Einf3. apply nget_ndel_other, Hp.
 Qed.
 
+(* ---- _update_tracked / contract_nodes_pair ---- *)
+Lemma tot_flops_mono keys s s' : trk_flops s' = trk_flops s -> flops_ s' = flops_ s ->
+  (forall p z, rd i_flops s p = Some z -> rd i_flops s' p = Some z) -> tot_flops keys s -> tot_flops keys s'.
+Proof.
+  intros E1 E2 M T. unfold tot_flops. rewrite E1, E2. intros Ht. destruct (T Ht) as [Ta Tb].
+  assert (R : forall p, In p keys -> rd i_flops s' p = rd i_flops s p).
+  { intros p Hp. specialize (Tb p Hp). destruct (rd i_flops s p) as [z|] eqn:Ez; [|congruence]. apply M, Ez. }
+  split; [|intros p Hp; rewrite R by exact Hp; apply Tb, Hp].
+  rewrite Ta. f_equal. apply map_ext_in. intros p Hp. unfold cflops. rewrite R by exact Hp. reflexivity.
+Qed.
+Lemma tot_write_mono keys s s' : trk_write s' = trk_write s -> write_ s' = write_ s ->
+  (forall p z, rd i_size s p = Some z -> rd i_size s' p = Some z) -> tot_write keys s -> tot_write keys s'.
+Proof.
+  intros E1 E2 M T. unfold tot_write. rewrite E1, E2. intros Ht. destruct (T Ht) as [Ta Tb].
+  assert (R : forall p, In p keys -> rd i_size s' p = rd i_size s p).
+  { intros p Hp. specialize (Tb p Hp). destruct (rd i_size s p) as [z|] eqn:Ez; [|congruence]. apply M, Ez. }
+  split; [|intros p Hp; rewrite R by exact Hp; apply Tb, Hp].
+  rewrite Ta. f_equal. apply map_ext_in. intros p Hp. unfold csize. rewrite R by exact Hp. reflexivity.
+Qed.
+Lemma tot_size_mono keys s s' : trk_size s' = trk_size s -> sizes_ s' = sizes_ s -> sizes_max s' = sizes_max s ->
+  (forall p z, rd i_size s p = Some z -> rd i_size s' p = Some z) -> tot_size keys s -> tot_size keys s'.
+Proof.
+  intros E1 E2 E3 M T. unfold tot_size, sizes_mc. rewrite E1, E2, E3. intros Ht. destruct (T Ht) as (Ta & Tb & Tc).
+  assert (R : forall p, In p keys -> rd i_size s' p = rd i_size s p).
+  { intros p Hp. specialize (Tc p Hp). destruct (rd i_size s p) as [z|] eqn:Ez; [|congruence]. apply M, Ez. }
+  split; [exact Ta|]. split; [|intros p Hp; rewrite R by exact Hp; apply Tc, Hp].
+  intros z. rewrite Tb. f_equal. apply map_ext_in. intros p Hp. unfold csize. rewrite R by exact Hp. reflexivity.
+Qed.
+
+(* what every stage of _update_tracked leaves alone *)
+Definition ExtI (s s' : tstate) : Prop :=
+  children s' = children s /\ sliced s' = sliced s /\ mult s' = mult s /\
+  trk_flops s' = trk_flops s /\ trk_write s' = trk_write s /\ trk_size s' = trk_size s /\
+  nkeys (info s') = nkeys (info s) /\
+  (forall nd z, rd i_size s nd = Some z -> rd i_size s' nd = Some z) /\
+  (forall nd z, rd i_flops s nd = Some z -> rd i_flops s' nd = Some z).
+Lemma Ext_ExtI s s' : Ext s s' -> ExtI s s'.
+Proof. intros (A1&A2&A3&A4&A5&A6&_&_&_&_&_&A12&A13&A14). unfold ExtI. repeat split; assumption. Qed.
+Lemma ExtI_trans s1 s2 s3 : ExtI s1 s2 -> ExtI s2 s3 -> ExtI s1 s3.
+Proof.
+  intros (A1&A2&A3&A4&A5&A6&A7&A8&A9) (B1&B2&B3&B4&B5&B6&B7&B8&B9). unfold ExtI.
+  repeat split; try congruence; auto.
+Qed.
+Definition same_struct (s s' : tstate) : Prop :=
+  children s' = children s /\ info s' = info s /\ sliced s' = sliced s /\ mult s' = mult s.
+Lemma InvS_struct s s' : same_struct s s' -> InvS s -> InvS s'.
+Proof. intros (E1&E2&E3&E4) H. unfold InvS in *. rewrite E1, E2, E3, E4. exact H. Qed.
+
+Lemma track_flops K p s : InvS s -> good_node p -> nget p (children s) <> None -> nget p (info s) <> None ->
+  tot_flops K s ->
+  let s1 := (if trk_flops s then let '(sa, fl) := g_flops n s p in set_flops (flops_ sa + fl)%Z sa else s) in
+  InvS s1 /\ ExtI s s1 /\ write_ s1 = write_ s /\ sizes_ s1 = sizes_ s /\ sizes_max s1 = sizes_max s /\
+  tot_flops (K ++ [p]) s1.
+Proof.
+  intros HS HG Hch Hk T. cbn zeta. destruct (trk_flops s) eqn:Ts.
+  - destruct (g_flops_inv s p HS HG) as (A & B & C); [right; left; exact Hch|].
+    specialize (C Hk). destruct (g_flops n s p) as [sa fl]. cbn [fst snd] in *.
+    split; [apply (InvS_struct sa); [unfold same_struct; repeat split; reflexivity|exact A]|].
+    split; [apply (ExtI_trans _ sa); [apply Ext_ExtI, B|unfold ExtI; repeat split; auto]|].
+    assert (B' := B). destruct B' as (_&_&_&B4&_&_&B7&B8&B9&B10&_).
+    split; [exact B8|]. split; [exact B9|]. split; [exact B10|].
+    pose proof (tot_flops_Ext K s sa B T) as T'. unfold tot_flops in *. cbn. intros _.
+    rewrite B4 in T'. destruct (T' Ts) as [Ta Tb].
+    change (cflops (set_flops (flops_ sa + fl)%Z sa)) with (cflops sa).
+    change (rd i_flops (set_flops (flops_ sa + fl)%Z sa)) with (rd i_flops sa). split.
+    + assert (Ecf : cflops sa p = fl) by (unfold cflops; rewrite C; reflexivity).
+      rewrite map_app, zsum_app, Ta. cbn [map]. rewrite zsum_cons, Ecf. change (zsum []) with 0%Z. lia.
+    + intros q Hq. apply in_app_iff in Hq. destruct Hq as [Hq|[<-|[]]]; [apply Tb, Hq|rewrite C; discriminate].
+  - split; [exact HS|]. split; [unfold ExtI; repeat split; auto|]. repeat split; try reflexivity; try congruence; try discriminate.
+Qed.
+Lemma track_write K p s : InvS s -> good_node p -> nget p (info s) <> None -> tot_write K s ->
+  let s1 := (if trk_write s then let '(sa, sz) := g_size n s p in set_write (write_ sa + sz)%Z sa else s) in
+  InvS s1 /\ ExtI s s1 /\ flops_ s1 = flops_ s /\ sizes_ s1 = sizes_ s /\ sizes_max s1 = sizes_max s /\
+  tot_write (K ++ [p]) s1.
+Proof.
+  intros HS HG Hk T. cbn zeta. destruct (trk_write s) eqn:Ts.
+  - destruct (g_size_inv s p HS HG) as [(A & B & _ & C)|C]; [|congruence].
+    destruct (g_size n s p) as [sa sz]. cbn [fst snd] in *.
+    split; [apply (InvS_struct sa); [unfold same_struct; repeat split; reflexivity|exact A]|].
+    split; [apply (ExtI_trans _ sa); [apply Ext_ExtI, B|unfold ExtI; repeat split; auto]|].
+    assert (B' := B). destruct B' as (_&_&_&_&B5&_&B7&B8&B9&B10&_).
+    split; [exact B7|]. split; [exact B9|]. split; [exact B10|].
+    pose proof (tot_write_Ext K s sa B T) as T'. unfold tot_write in *. cbn. intros _.
+    rewrite B5 in T'. destruct (T' Ts) as [Ta Tb].
+    change (csize (set_write (write_ sa + sz)%Z sa)) with (csize sa).
+    change (rd i_size (set_write (write_ sa + sz)%Z sa)) with (rd i_size sa). split.
+    + assert (Ecf : csize sa p = sz) by (unfold csize; rewrite C; reflexivity).
+      rewrite map_app, zsum_app, Ta. cbn [map]. rewrite zsum_cons, Ecf. change (zsum []) with 0%Z. lia.
+    + intros q Hq. apply in_app_iff in Hq. destruct Hq as [Hq|[<-|[]]]; [apply Tb, Hq|rewrite C; discriminate].
+  - split; [exact HS|]. split; [unfold ExtI; repeat split; auto|]. repeat split; try reflexivity; try congruence; try discriminate.
+Qed.
+Lemma count_occ_snoc (l : list Z) x z : count_occ Z.eq_dec (l ++ [x]) z = count_occ Z.eq_dec l z + (if Z.eqb z x then 1 else 0).
+Proof.
+  rewrite count_occ_app. cbn. destruct (Z.eq_dec x z), (Z.eqb_spec z x); try congruence; lia.
+Qed.
+Lemma track_size K p s : InvS s -> good_node p -> nget p (info s) <> None -> tot_size K s ->
+  let s1 := (if trk_size s then let '(sa, sz) := g_size n s p in set_sizes (mc_add sz (sizes_mc sa)) sa else s) in
+  InvS s1 /\ ExtI s s1 /\ flops_ s1 = flops_ s /\ write_ s1 = write_ s /\
+  tot_size (K ++ [p]) s1.
+Proof.
+  intros HS HG Hk T. cbn zeta. destruct (trk_size s) eqn:Ts.
+  - destruct (g_size_inv s p HS HG) as [(A & B & _ & C)|C]; [|congruence].
+    destruct (g_size n s p) as [sa sz]. cbn [fst snd] in *.
+    split; [apply (InvS_struct sa); [unfold same_struct; repeat split; reflexivity|exact A]|].
+    split; [apply (ExtI_trans _ sa); [apply Ext_ExtI, B|unfold ExtI; repeat split; auto]|].
+    assert (B' := B). destruct B' as (_&_&_&_&_&B6&B7&B8&_).
+    split; [exact B7|]. split; [exact B8|].
+    pose proof (tot_size_Ext K s sa B T) as T'. unfold tot_size in *. intros _.
+    rewrite B6 in T'. destruct (T' Ts) as (Ta & Tb & Tc).
+    change (mc_ok (mc_add sz (sizes_mc sa)) /\
+            (forall z, cget0 z (fst (mc_add sz (sizes_mc sa))) = count_occ Z.eq_dec (map (csize sa) (K ++ [p])) z) /\
+            (forall q, In q (K ++ [p]) -> rd i_size sa q <> None)).
+    split; [apply mc_add_ok, Ta|]. split.
+    + intros z. rewrite mc_add_count. cbn [fst sizes_mc]. rewrite Tb, map_app. cbn [map]. rewrite count_occ_snoc.
+      assert (Ecf : csize sa p = sz) by (unfold csize; rewrite C; reflexivity). rewrite Ecf. reflexivity.
+    + intros q Hq. apply in_app_iff in Hq. destruct Hq as [Hq|[<-|[]]]; [apply Tc, Hq|rewrite C; discriminate].
+  - split; [exact HS|]. split; [unfold ExtI; repeat split; auto|]. repeat split; try reflexivity; try congruence; try discriminate.
+Qed.
+
+Lemma InvS_children_add p l r s : InvS s -> nget p (children s) = None ->
+  good_node l -> good_node r -> inrange n (l ++ r) -> Permutation p (l ++ r) ->
+  InvS (set_children (nset p (l, r) (children s)) s).
+Proof.
+  intros (H1&H2&H3&H5) Hnone Gl Gr HR HP. destruct H1 as [Hnd Hc].
+  unfold InvS. cbn [set_children children info sliced mult]. split; [|split; [exact H2|split; [|exact H5]]].
+  - split; [apply NoDup_nkeys_nset, Hnd|]. intros q l' r' Hq. destruct (node_eq_dec q p) as [->|Hn].
+    + rewrite nget_nset_same in Hq. injection Hq as <- <-. auto.
+    + rewrite nget_nset_other in Hq by exact Hn. apply Hc, Hq.
+  - intros nd' i Hi. destruct (H3 nd' i Hi) as [G (A&B&C&D)]. split; [exact G|]. unfold node_inv. repeat split; auto.
+    + intros inv Hinv. destruct (B inv Hinv) as [Hl|(l' & r' & E & Hok)]; [left; exact Hl|right].
+      exists l', r'. split; [|exact Hok]. rewrite nget_nset_other; [exact E|]. intros ->. congruence.
+    + intros z Hz. destruct (D z Hz) as [Hl|(l' & r' & E & Hok)]; [left; exact Hl|right].
+      exists l', r'. split; [|exact Hok]. rewrite nget_nset_other; [exact E|]. intros ->. congruence.
+Qed.
+
+Definition pair_pre (s : tstate) (x y : node) (lg : option legs) (cost size : option Z) : Prop :=
+  good_node x /\ good_node y /\ inrange n (x ++ y) /\ nget (nunion x y) (children s) = None /\
+  (forall l, lg = Some l -> legs_ok n (sliced s) (nunion x y) l) /\
+  (forall c, cost = Some c -> forall inv,
+      inv_ok n (sliced s) (fst (order_pair x y)) (snd (order_pair x y)) inv -> c = size_of (szd n) (lkeys inv)) /\
+  (forall z, size = Some z -> size_spec (sliced s) (nunion x y) z).
+
+Lemma node_inv_set_legs ch sl nd i v : node_inv ch sl nd i -> legs_ok n sl nd v -> node_inv ch sl nd (w_legs (Some v) i).
+Proof. intros H Hv. apply node_inv_w_legs; assumption. Qed.
+Lemma node_inv_set_size ch sl nd i z : node_inv ch sl nd i -> size_spec sl nd z -> node_inv ch sl nd (w_size (Some z) i).
+Proof. intros (A&B&C&D) Hz. unfold node_inv. cbn. repeat split; auto. intros z' [= <-]. exact Hz. Qed.
+Lemma node_inv_set_flops ch sl nd i z : node_inv ch sl nd i -> flops_spec ch sl nd z -> node_inv ch sl nd (w_flops (Some z) i).
+Proof. intros (A&B&C&D) Hz. unfold node_inv. cbn. repeat split; auto. intros z' [= <-]. exact Hz. Qed.
+
+Theorem contract_pair_inv x y lg cost size s : InvC s -> pair_pre s x y lg cost size ->
+  InvC (contract_pair n x y lg cost size s).
+Proof.
+  intros HI (Gx & Gy & HR & Hnone & Plg & Pc & Pz).
+  set (p := nunion x y) in *.
+  assert (HPxy : Permutation p (x ++ y)).
+  { apply nunion_perm; [apply (NoDup_app_elim _ _ (proj1 HR))|].
+    intros k Hky Hkx. destruct HR as [ND _].
+    clear -ND Hky Hkx. induction x as [|a x IH]; [contradiction|]. cbn in ND. inversion ND as [|? ? Hna ND']; subst.
+    destruct Hkx as [->|Hkx]; [apply Hna, in_app_iff; right; exact Hky|apply IH; assumption]. }
+  assert (Gp : good_node p).
+  { split.
+    - split; [apply (Permutation_NoDup (Permutation_sym HPxy)), HR|].
+      intros k Hk. apply HR. apply (Permutation_in _ HPxy), Hk.
+    - intros E. rewrite E in HPxy. apply Permutation_nil in HPxy. destruct Gx as [_ Hx]. destruct x; [congruence|discriminate]. }
+  (* the three _add_node calls *)
+  destruct (add_node_inv x s HI Gx) as (I1 & C1 & S1 & _ & _).
+  destruct (add_node_inv y _ I1 Gy) as (I2 & C2 & S2 & _ & _).
+  destruct (add_node_inv p _ I2 Gp) as (I3 & C3 & S3 & K3 & _).
+  unfold contract_pair. fold p.
+  set (s1 := add_node p (add_node y (add_node x s))) in *.
+  assert (Ech1 : children s1 = children s) by congruence.
+  assert (Esl1 : sliced s1 = sliced s) by congruence.
+  destruct I3 as [HS1 HT1].
+  set (K := nkeys (children s)) in *.
+  assert (HT1' : tot_flops K s1 /\ tot_write K s1 /\ tot_size K s1).
+  { unfold K. rewrite <- Ech1. apply totals_split. exact HT1. }
+  (* children[parent] = (l, r) *)
+  set (lr := order_pair x y).
+  assert (Hlr : good_node (fst lr) /\ good_node (snd lr) /\ inrange n (fst lr ++ snd lr) /\ Permutation p (fst lr ++ snd lr)).
+  { unfold lr, order_pair. destruct (if Nat.eqb (length x) (length y) then _ else _); cbn [fst snd].
+    - auto.
+    - split; [exact Gy|]. split; [exact Gx|]. split.
+      + destruct HR as [ND Hb]. split; [apply (Permutation_NoDup (Permutation_app_comm x y)), ND|].
+        intros k Hk. apply Hb. apply (Permutation_in _ (Permutation_app_comm y x)), Hk.
+      + rewrite HPxy. apply Permutation_app_comm. }
+  destruct Hlr as (Gl & Gr & HRlr & HPlr).
+  set (s2 := set_children (nset p lr (children s1)) s1).
+  assert (HS2 : InvS s2).
+  { unfold s2. rewrite (surjective_pairing lr). apply InvS_children_add; try assumption. rewrite Ech1. exact Hnone. }
+  assert (Hpk : ~ In p K) by (apply nget_none_notin, Hnone).
+  assert (Hch2 : nget p (children s2) = Some lr) by (unfold s2; cbn; apply nget_nset_same).
+  assert (HK2 : nkeys (children s2) = K ++ [p]).
+  { unfold s2. cbn [set_children children]. rewrite Ech1. apply nkeys_nset_notin, Hnone. }
+  (* precomputed figures: three cache writes on the parent *)
+  assert (Hwrite : forall f sa, InvS sa -> children sa = children s2 -> sliced sa = sliced s ->
+            nget p (info sa) <> None ->
+            tot_flops K sa /\ tot_write K sa /\ tot_size K sa ->
+            (forall i, nget p (info sa) = Some i -> node_inv (children sa) (sliced sa) p (f i)) ->
+            InvS (upd_info p f sa) /\ children (upd_info p f sa) = children s2 /\ sliced (upd_info p f sa) = sliced s /\
+            nget p (info (upd_info p f sa)) <> None /\
+            (tot_flops K (upd_info p f sa) /\ tot_write K (upd_info p f sa) /\ tot_size K (upd_info p f sa))).
+  { intros f sa HSa Ea Esa Hka Ta Hf.
+    destruct (upd_info_fields p f sa) as (F1&F2&F3&F4&F5&F6&F7&F8&F9&F10).
+    split; [apply InvS_upd; assumption|]. split; [congruence|]. split; [congruence|]. split.
+    - unfold upd_info. destruct (nget p (info sa)) as [i|] eqn:Ei; [|congruence]. cbn. rewrite nget_nset_same. discriminate.
+    - apply (totals_other_node sa _ K p); auto.
+      intros q Hq. unfold upd_info. destruct (nget p (info sa)); cbn; [apply nget_nset_other, Hq|reflexivity]. }
+  assert (HT2 : tot_flops K s2 /\ tot_write K s2 /\ tot_size K s2) by exact HT1'.
+  assert (Hk2 : nget p (info s2) <> None) by exact K3.
+  set (s3 := match lg with Some l => upd_info p (w_legs (Some l)) s2 | None => s2 end).
+  assert (H3 : InvS s3 /\ children s3 = children s2 /\ sliced s3 = sliced s /\ nget p (info s3) <> None /\
+               (tot_flops K s3 /\ tot_write K s3 /\ tot_size K s3)).
+  { unfold s3. destruct lg as [l|]; [|exact (conj HS2 (conj eq_refl (conj Esl1 (conj Hk2 HT2))))].
+    apply Hwrite; try assumption; try reflexivity.
+    intros i Hi. destruct HS2 as (_&_&Hn&_). apply node_inv_set_legs; [apply (Hn p i Hi)|].
+    change (sliced s2) with (sliced s1). rewrite Esl1. apply Plg. reflexivity. }
+  destruct H3 as (HS3 & Ech3 & Esl3 & Hk3 & HT3).
+  set (s4 := match cost with Some c => upd_info p (w_flops (Some c)) s3 | None => s3 end).
+  assert (H4 : InvS s4 /\ children s4 = children s2 /\ sliced s4 = sliced s /\ nget p (info s4) <> None /\
+               (tot_flops K s4 /\ tot_write K s4 /\ tot_size K s4)).
+  { unfold s4. destruct cost as [c|]; [|exact (conj HS3 (conj Ech3 (conj Esl3 (conj Hk3 HT3))))].
+    apply Hwrite; try assumption.
+    intros i Hi. assert (HS3' := HS3). destruct HS3' as (_&_&Hn&_). apply node_inv_set_flops; [apply (Hn p i Hi)|].
+    right. exists (fst lr), (snd lr). split; [rewrite Ech3, <- surjective_pairing; exact Hch2|].
+    rewrite Esl3. apply Pc. reflexivity. }
+  destruct H4 as (HS4 & Ech4 & Esl4 & Hk4 & HT4).
+  set (s5 := match size with Some c => upd_info p (w_size (Some c)) s4 | None => s4 end).
+  assert (H5 : InvS s5 /\ children s5 = children s2 /\ sliced s5 = sliced s /\ nget p (info s5) <> None /\
+               (tot_flops K s5 /\ tot_write K s5 /\ tot_size K s5)).
+  { unfold s5. destruct size as [c|]; [|exact (conj HS4 (conj Ech4 (conj Esl4 (conj Hk4 HT4))))].
+    apply Hwrite; try assumption.
+    intros i Hi. assert (HS4' := HS4). destruct HS4' as (_&_&Hn&_). apply node_inv_set_size; [apply (Hn p i Hi)|].
+    rewrite Esl4. apply Pz. reflexivity. }
+  destruct H5 as (HS5 & Ech5 & Esl5 & Hk5 & (T5f & T5w & T5s)).
+  (* _update_tracked *)
+  unfold update_tracked.
+  assert (Hch5 : nget p (children s5) <> None) by (rewrite Ech5, Hch2; discriminate).
+  destruct (track_flops K p s5 HS5 Gp Hch5 Hk5 T5f) as (HS6 & E6 & W6 & Z6 & M6 & T6f).
+  set (s6 := if trk_flops s5 then _ else s5) in *.
+  assert (Hk6 : nget p (info s6) <> None).
+  { apply nget_in_keys. destruct E6 as (_&_&_&_&_&_&Ek&_). unfold nkeys in *. rewrite Ek. apply nget_in_keys, Hk5. }
+  assert (T6w : tot_write K s6) by (apply (tot_write_mono K s5 s6); [apply E6|exact W6|apply E6|exact T5w]).
+  assert (T6s : tot_size K s6) by (apply (tot_size_mono K s5 s6); [apply E6|exact Z6|exact M6|apply E6|exact T5s]).
+  destruct (track_write K p s6 HS6 Gp Hk6 T6w) as (HS7 & E7 & F7 & Z7 & M7 & T7w).
+  set (s7 := if trk_write s6 then _ else s6) in *.
+  assert (Hk7 : nget p (info s7) <> None).
+  { apply nget_in_keys. destruct E7 as (_&_&_&_&_&_&Ek&_). unfold nkeys in *. rewrite Ek. apply nget_in_keys, Hk6. }
+  assert (T7f : tot_flops (K ++ [p]) s7) by (apply (tot_flops_mono _ s6 s7); [apply E7|exact F7|apply E7|exact T6f]).
+  assert (T7s : tot_size K s7) by (apply (tot_size_mono K s6 s7); [apply E7|exact Z7|exact M7|apply E7|exact T6s]).
+  destruct (track_size K p s7 HS7 Gp Hk7 T7s) as (HS8 & E8 & F8 & W8 & T8s).
+  set (s8 := if trk_size s7 then _ else s7) in *.
+  split; [exact HS8|]. apply totals_split.
+  assert (Ech8 : children s8 = children s2).
+  { destruct E8 as (A&_), E7 as (B&_), E6 as (C&_). congruence. }
+  rewrite Ech8, HK2. split; [|split; [|exact T8s]].
+  - apply (tot_flops_mono _ s7 s8); [apply E8|exact F8|apply E8|exact T7f].
+  - apply (tot_write_mono _ s7 s8); [apply E8|exact W8|apply E8|exact T7w].
+Qed.
+
 End Inv.
